@@ -299,6 +299,12 @@ def wrappers(tagger):
         "in-catch-nofinally": lambda h: ("try", ("throw", t("th")), ("seq", [h, ("log", t("ca"))]), None),
         "in-finally": lambda h: ("try", ("log", t("tb")), None, ("seq", [h, ("log", t("fa"))])),
         "in-finally-after-throw": lambda h: ("try", ("throw", t("th")), None, ("seq", [h, ("log", t("fa"))])),
+        # the try block is LEFT by break / continue / return while a catch clause exists, and the hole sits in the finally
+        # block that runs on that exit path: what the finally block does then (throw, jump, return) must not be seen by the
+        # statement's own catch clause, and its handler must be gone
+        "finally-after-break": lambda h: ("while", (t("bw"),), ("seq", [("try", ("seq", [("log", t("tb")), ("break", None)]), ("log", t("ch")), ("seq", [("log", t("fb")), h])), ("log", t("bx"))])),
+        "finally-after-continue": lambda h: ("while", (t("cw"),), ("seq", [("try", ("seq", [("log", t("tb")), ("continue", None)]), ("log", t("ch")), ("seq", [("log", t("fb")), h])), ("log", t("cx"))])),
+        "finally-after-return": lambda h: ("try", ("seq", [("log", t("tb")), ("return", t("rv"))]), ("log", t("ch")), ("seq", [("log", t("fb")), h])),
         # function boundaries nested in the construct: the exits of the inner function must not touch the contexts
         # (loops, handlers, finally blocks) of the code around it
         "arrow": lambda h: ("fn", "arrow", t("ar"), ("seq", [("log", t("ab")), h])),
